@@ -104,7 +104,13 @@ def overlay_file(pid):
 def go_test(pid, pkg, run, env=None, timeout=900, race=False, extra_args=None, tags="verif"):
     """Run one overlaid driver (a Go test function) from /repo's current working tree."""
     ov = overlay_file(pid)
+    # go.mod / go.sum of the tree are never touched: -mod=mod may rewrite the module file, so it is
+    # given a private copy
+    md = outdir(pid, "gomod")
+    shutil.copy(os.path.join(REPO, "go.mod"), os.path.join(md, "go.mod"))
+    shutil.copy(os.path.join(REPO, "go.sum"), os.path.join(md, "go.sum"))
     cmd = ["go", "test", "-vet=off", "-count=1", "-tags", tags, "-overlay", ov,
+           "-modfile", os.path.join(md, "go.mod"),
            "-run", run, "-timeout", "%ds" % timeout]
     if race:
         cmd.append("-race")
@@ -363,6 +369,7 @@ class Verdict:
         self.tier = tier
         self.t0 = time.time()
         self.violations = []
+        self.unreproduced = []
         self.known = {}
         self.coverage = {"evaluations": 0, "distinct_nontrivial": 0, "states": 0, "transitions": 0,
                          "traces_validated_against_impl": 0, "samples": []}
@@ -399,15 +406,21 @@ class Verdict:
             "assumptions": self.assumptions,
             "wall_s": round(time.time() - self.t0, 2),
             "violations": len(self.violations),
+            "unreproduced_rejections": len(self.unreproduced),
             "known_findings_reobserved": sorted(self.known.keys()),
         }
         os.makedirs(EVIDENCE, exist_ok=True)
         with open(os.path.join(EVIDENCE, self.pid + ".json"), "w") as fh:
             json.dump(ev, fh, indent=1, sort_keys=True)
             fh.write("\n")
-        log("%s %s: %d violation(s), %d known finding(s), %.1fs" % (
-            self.pid, self.tier, len(self.violations), len(self.known), ev["wall_s"]))
-        return 1 if self.violations else 0
+        log("%s %s: %d violation(s), %d known finding(s), %d unreproduced rejection(s), %.1fs" % (
+            self.pid, self.tier, len(self.violations), len(self.known), len(self.unreproduced), ev["wall_s"]))
+        if self.violations:
+            return 1
+        if self.unreproduced:
+            print("[verif] BROKEN RUN (no verdict): rejections that did not reproduce: %s" % self.unreproduced, flush=True)
+            return 2
+        return 0
 
 
 def save_replay(pid, n, scenario, trace_rows, note):
@@ -493,8 +506,8 @@ def conformance(v, scenarios, driver, trace_module, trace_cfg, sig_of, nontrivia
 
     def confirm(sid):
         """Re-run one scenario alone; True iff the rejection reproduces on the real code."""
-        for attempt in range(2):
-            rr = driver([by_id[sid]], "confirm")
+        for attempt in range(3):
+            rr = driver([by_id[sid]], "confirm%d" % (attempt + 1))
             tp = os.path.join(outdir(pid), "confirm.ndjson")
             write_ndjson(tp, rr)
             res = validate_trace(pid, trace_module, trace_cfg, tp, name="trace-confirm", dfs=dfs,
@@ -516,11 +529,17 @@ def conformance(v, scenarios, driver, trace_module, trace_cfg, sig_of, nontrivia
             if sid is None or sid not in by_id:
                 raise Broken("cannot attribute rejection at line %s" % res["line"])
             ok, rr, res2 = confirm(sid)
-            if not ok:
-                raise Broken("rejection of scenario %s did not reproduce (%s)" % (sid, res["why"]))
-            failures += 1
             pos = ids.index(sid)
             accepted += pos
+            if not ok:
+                # never a verdict: remembered, the run ends with exit 2 unless a reproduced violation exists
+                v.unreproduced.append("scenario %s: %s" % (sid, res["why"]))
+                log("rejection of scenario %s did not reproduce (%s)" % (sid, res["why"]))
+                ids = ids[pos + 1:]
+                if len(v.unreproduced) >= 6:
+                    break
+                continue
+            failures += 1
             sig = sig_of(by_id[sid])
             local = res2["line"]
             nxt = rr[local - 1] if local and local <= len(rr) else None
